@@ -133,6 +133,13 @@ def _has_sym(v):
 def repr_(it, v):
     if not _has_sym(v) and isinstance(v, (str, int, float, bool, type(None), list, tuple, dict)):
         return repr(v)
+    if isinstance(v, VObj):
+        # an object whose class (repository or specification stand-in) defines __repr__: that method's result
+        nominal = (it.reg.nominal_methods.get(v.cls.name) or it.reg.nominal_methods.get("spec:" + v.cls.name) or {}).get("__repr__")
+        if nominal is not None:
+            return nominal(it, v, [], {})
+        if v.cls.find_method("__repr__"):
+            return it.call(it.getattr(v, "__repr__"), [], {})
     raise OutOfSubset(f"repr() of symbolic {v!r}")
 
 
